@@ -44,6 +44,10 @@ fn defs(k: f64) -> Vec<Def> {
         // a name that is NOT bound at definition (the function's own name, a late-bound helper) mentioned before the captured ones
         Def { class: "own-name-mentioned-before-captured", setup: vec![format!("k = {}", ks), "f = x => if x <= 0 then 0 else f(x - 1) * 0 + x + k".into()], captured: vec!["k"], params: vec!["x"], expect: Box::new(move |a| if a <= 0.0 { n(0.0) } else { n(a + k) }) },
         Def { class: "late-bound-name-mentioned-before-captured", setup: vec![format!("k = {}", ks), "m = 3".into(), "f = x => (if x < -5 then late_helper(x) else 0) + x * m + k".into()], captured: vec!["k", "m"], params: vec!["x"], expect: Box::new(move |a| n(a * 3.0 + k)) },
+        // the function re-enters itself through frames whose parameter / do-local / callback parameter reuse the captured name
+        Def { class: "reentered-through-a-parameter-named-like-captured", setup: vec![format!("k = {}", ks), "f = x => if x <= 0 then k else (k => f(x - 1))(100)".into()], captured: vec!["k"], params: vec!["x"], expect: Box::new(move |_| n(k)) },
+        Def { class: "reentered-through-a-do-local-named-like-captured", setup: vec![format!("k = {}", ks), "f = x => if x <= 0 then k else [k, do {\n k = 100\n return f(x - 1)\n}][1]".into()], captured: vec!["k"], params: vec!["x"], expect: Box::new(move |_| n(k)) },
+        Def { class: "reentered-through-a-callback-parameter-named-like-captured", setup: vec![format!("k = {}", ks), "f = x => if x <= 0 then k else ([x - 1] via (k => f(k)))[0]".into()], captured: vec!["k"], params: vec!["x"], expect: Box::new(move |_| n(k)) },
         Def { class: "captured-in-nested-lambda", setup: vec![format!("k = {}", ks), "f = x => ([x] via (y => y + k))[0]".into()], captured: vec!["k"], params: vec!["x"], expect: Box::new(move |a| n(a + k)) },
         Def { class: "captured-in-conditional-and-do", setup: vec![format!("k = {}", ks), "m = 2".into(), "f = x => if x > 100 then m else do {\n t = x * m\n return t + k\n}".into()], captured: vec!["k", "m"], params: vec!["x"], expect: Box::new(move |a| if a > 100.0 { n(2.0) } else { n(a * 2.0 + k) }) },
         Def { class: "captured-in-record-shorthand-and-spread", setup: vec![format!("k = {}", ks), "m = [1, 2]".into(), "f = x => [{k}.k + x, ...m]".into()], captured: vec!["k", "m"], params: vec!["x"], expect: Box::new(move |a| RVal::List(vec![n(k + a), n(1.0), n(2.0)])) },
